@@ -50,11 +50,18 @@ def oracle_loaded(entries, common, rw, o):
 
 
 class FakeArr:
-    """A row-id array that is never materialised: save only needs len(), .dtype and tofile()."""
+    """A HUGE row-id array that is never materialised: it has the metadata of a 1-D ndarray (len, dtype, nbytes, size, shape,
+    ndim, itemsize) and tofile() = seek on a sparse real file.  Arrays of up to REAL_BELOW ids are real NumPy arrays."""
+    REAL_BELOW = 4096
 
     def __init__(self, n, dtype):
         self.n = n
         self.dtype = dtype
+        self.size = n
+        self.shape = (n,)
+        self.ndim = 1
+        self.itemsize = dtype.itemsize
+        self.nbytes = n * dtype.itemsize
 
     def __len__(self):
         return self.n
@@ -63,9 +70,13 @@ class FakeArr:
         f.seek(self.n * self.dtype.itemsize, 1)   # sparse: nothing is written
 
 
+def stub_array(impl, n):
+    return impl.np.arange(n, dtype=impl.np.uint32) if n < FakeArr.REAL_BELOW else FakeArr(n, impl.u32)
+
+
 def save_header(impl, keys, common, lens):
     """Real save with duck-typed arrays on a sparse real file -> (first 16 bytes, returned normally, note)."""
-    entries = {tuple(k): FakeArr(n, impl.u32) for k, n in zip(keys, lens)}
+    entries = {tuple(k): stub_array(impl, n) for k, n in zip(keys, lens)}
     note = ""
     returned = True
     import warnings
@@ -132,7 +143,7 @@ def run(ctx):
                 "dimension counts for empty indexes) and run-structured dicts with >255 / >65535 row ids in total at 1- / 2-byte row-id words: real load; "
                 "(c) duck-typed arrays with totals around 2^30 and 2^32: real save header; distinct per (entries, common, iw, rw, d0)")
     ctx.trusted = list(core.STD_TRUSTED) + c10.TRUSTED + [
-        "(c) relies on save touching row-id arrays only through len(), .dtype and tofile(); the sparse-file stub stands for real uint32 arrays"]
+        "(c) relies on save touching the HUGE row-id arrays (>= 4096 ids; smaller ones are real arrays) only through ndarray metadata (len, dtype, nbytes, size, shape, ndim, itemsize) and tofile(); the sparse-file stub stands for real uint32 arrays; if the code does otherwise the check says the size field is no longer observed"]
     pr, proof_ok = c10.prove(ctx, "C11.v")
     c10.build_check(ctx)
     impl = c10.Impl(ctx)
@@ -227,7 +238,7 @@ def run(ctx):
         ctx.nontrivial.add(("r", json.dumps(rec)))
 
     # ---------------- (c) header for huge totals ----------------
-    lits_c, recs_c = [], []
+    lits_c, recs_c, stub_rejected = [], [], []
     totals = list(BIG_TOTALS)
     for _ in range(20 if quick else 200):
         n = ctx.rng.randint(1, 5)
@@ -252,6 +263,10 @@ def run(ctx):
         head, returned, note = save_header(impl, keys, common, lens)
         rec = {"keys": [list(k) for k in keys], "common": common, "rowid_array_lengths": lens, "total": sum(lens)}
         want = b"INDX0001" + struct.pack("<Q", c10.oracle_size(keys, common, lens))
+        if not returned and note.split(":")[0] in ("AttributeError", "TypeError") and max(lens + [0]) >= FakeArr.REAL_BELOW:
+            # the code touched a never-materialised array in a way the stub does not support: no verdict about the size field
+            stub_rejected.append(dict(rec, note=note))
+            continue
         if not returned or head != want:
             bad.append(dict(rec, stream="c", what="size field for %d row ids in total: %s" % (sum(lens), ("save raised " + note) if not returned else "wrong"),
                             header_hex=head.hex(), expected_hex=want.hex(),
@@ -273,7 +288,8 @@ def run(ctx):
     ctx.coverage.update({
         "files_saved_for_real": len(lits_a), "independent_files_loaded_for_real": n_width_files, "width_pairs_iw/rw": dict(sorted(width_hist.items())),
         "beyond_rowid_word_range_files": [{"rw": r["rw"], "total_rowids": r["total_rowids"]} for r in recs_r],
-        "sparse_header_cases": len(lits_c), "sparse_totals_max": max(r["total"] for r in recs_c),
+        "sparse_header_cases": len(lits_c), "sparse_totals_max": max([r["total"] for r in recs_c] + [0]),
+        "sparse_cases_the_stub_could_not_serve": len(stub_rejected),
         "scale_stream": {"files_saved_for_real": n_scale_files[0], "independent_files_loaded_for_real": n_scale_files[1], "compared_inside_coq": len(lits_as),
                          "oracle_only_(one_~70000-id_array)": n_scale_files[0] - len(lits_as)},
         "model_disagreements": {"a": len(ra.failing), "b": len(rb.failing), "a_scale": len(ras.failing), "b_scale": len(rbs.failing), "runs": len(rr.failing), "c": len(rc.failing)},
@@ -289,12 +305,15 @@ def run(ctx):
     m.errors = ra.errors + rb.errors + ras.errors + rbs.errors + rr.errors + rc.errors
     m.explain = "\n".join(x[-1500:] for x in (ra.explain, rb.explain, ras.explain, rbs.explain, rr.explain, rc.explain) if x)
     if bad:
-        bad = sorted(bad, key=lambda r: (r["stream"] != "c", len(json.dumps(r, default=str))))
+        bad = sorted(bad, key=lambda r: (["a", "b", "b-big", "c"].index(r["stream"]), len(json.dumps(r, default=str))))
         sig = {"a": "layout:bytes-differ", "b": "layout:independent-file-misread", "b-big": "layout:independent-file-misread", "c": "layout:size-field"}[bad[0]["stream"]]
         ctx.report(sig, bad[0]["what"], {"failing_inputs": bad[:10], "count": len(bad),
                    "how": "IndxIO on real files, judged by the struct-based encoder/decoder written from the docstring (no model involved)"})
-    elif m.failing or m.errors or not proof_ok:
+    elif m.failing or m.errors or not proof_ok or stub_rejected:
         w = []
+        if stub_rejected:
+            w.append("size field for totals around 2^30..2^33 no longer observed: save touches never-materialised row-id arrays in a way the sparse stub does not "
+                     "support in %d cases (%s)" % (len(stub_rejected), stub_rejected[0]["note"][:160]))
         if not proof_ok:
             w.append("proof obligation no longer checks: Properties/C11.v (%s)" % ((pr["log"] or "")[-300:] if not pr["ok"] else "assumptions: %s" % pr["assumptions"]))
         if m.failing:
@@ -305,6 +324,7 @@ def run(ctx):
         ctx.report("c11:not-shown", "; ".join(w), {
             "broken_proof_log": (pr["log"] or "")[-2500:] if not pr["ok"] else "",
             "disagreeing_cases": [dict(pick[s][i], stream=s) for s, i in m.failing[:10]], "explain": m.explain[-3000:],
+            "stub_rejected": stub_rejected[:5],
             "search": "the struct-based oracle found no failing input among the generated cases"}, found_input=False)
 
 
